@@ -37,10 +37,10 @@ def plan(tier, seed):
             specs.append(dict(kind='matrix', order=o, auto=auto, hashseed=k))
             specs.append(dict(kind='binders', order=o, auto=auto,
                               hashseed=k))
-    nr = 32 if tier == 'thorough' else 16
+    nr = 96 if tier == 'thorough' else 16
     for k in range(nr):
         specs.append(dict(kind='random', sub=k, n=2 + k % 4,
-                          count=2500 if tier == 'thorough' else 1200,
+                          count=8000 if tier == 'thorough' else 1200,
                           auto=(k % 2 == 1), hashseed=k))
     n3 = ('a', 'b', 'c')
     for k, o in enumerate(orders(n3, 'thorough', seed, 6)):
